@@ -172,7 +172,7 @@ SMALL = os.environ.get('VX_UNIT_VARIANT') == 'small'
 PRELUDE = r'''
 int vx_thrown;
 #define PH_DFA %d''' % (4 if SMALL else 8) + r'''
-struct source_point { size32_t line; size32_t column; };
+struct source_point { vx_sp_line_t line; vx_sp_col_t column; };   /* member types from the real declaration (R16) */
 struct match_options { bool verbose; };
 struct recognized_term { size16_t term_idx; vx_rt_len_t len; };   /* member type from the real declaration (R16) */
 struct utils__slice { size32_t start; size32_t n; };
@@ -211,7 +211,7 @@ UNIT = Unit('dfa', PRELUDE, fns, consts=PC.UNINIT + [
     ('VX_STRING_TERM_DFA_SIZE', r'using internal_value_type = std::string_view;\s*static const size_t dfa_size = ([^;]+);\s*static const bool is_trivial = true;', None),
     ('VX_MERGE_DEFAULT_KEEP', r'constexpr void merge\(size_t to, size_t from, bool keep_end_state = (\w+), bool mark_from_as_unreachable = \w+\)', None),
     ('VX_MERGE_DEFAULT_MARK', r'constexpr void merge\(size_t to, size_t from, bool keep_end_state = \w+, bool mark_from_as_unreachable = (\w+)\)', None)])
-UNIT.facts = [r'constexpr bool test\(size_t idx\) const \{ return data\.test\(idx\); \}', r'constexpr size_t size\(\) const \{ return data\.size\(\); \}', r'struct source_point\s*\{\s*size32_t line = 1;\s*size32_t column = 1;', r'using conflicted_terms = size16_t\[4\];', r'static const size_t transitions_size = meta::distinct_values_count<char>;',
+UNIT.facts = [r'constexpr bool test\(size_t idx\) const \{ return data\.test\(idx\); \}', r'constexpr size_t size\(\) const \{ return data\.size\(\); \}', r'struct source_point\s*\{\s*\w+ line = 1;\s*\w+ column = 1;', r'using conflicted_terms = size16_t\[4\];', r'static const size_t transitions_size = meta::distinct_values_count<char>;',
               r'size8_t start_state = 0;\s*size8_t end_state = 0;\s*size8_t unreachable = 0;\s*conflicted_terms conflicted_recognition = \{ uninitialized16, uninitialized16, uninitialized16, uninitialized16 \};\s*size16_t transitions\[transitions_size\] = \{\};\s*stdex::cbitset<N> merged_from = \{\};',
               r'constexpr const T& operator\[\]\(size_type idx\) const \{ return the_data\[idx\]; \}',
               r'using dfa = stdex::cvector<dfa_state<N>, N>;', PC.FACTS[-1], PC.FACTS[5]]
